@@ -186,11 +186,43 @@ class NT:
         elif is_sentinel_ptr(n):
             st = NState("?", "N", "raw", "sentinel")
             st.kind = "sentinel"
+        elif self.drained_from(n) is not None:
+            # a node handed out by iterating `X.map.drain()`: it has just left the index of X, its links are untouched
+            X = self.drained_from(n)
+            st = NState(("L", X), "N", "raw", "drained from %s.map" % fmt_list(X))
+            st.kind = "drained"
         else:
             st = NState("?", "?", "?", via or "unknown pointer")
             st.kind = "unknown"
         self.nodes[n] = st
         return st
+
+    def drained_from(self, n):
+        """X if n is the node component of an item of an iteration over X.map.drain() (outside teardown), else None"""
+        if self.teardown:
+            return None
+        t = n
+        while isinstance(t, tuple) and t[0] == "proj":
+            t = t[1]
+        if not (isinstance(t, tuple) and t[0] == "iter_item"):
+            return None
+        it = t[2]
+        for _ in range(4):
+            if not (isinstance(it, tuple) and it[0] == "call"):
+                return None
+            ce = [e for e in self.path.events if e["ev"] == "call" and e.get("id") == it[1]]
+            if not ce or not ce[0]["args"]:
+                return None
+            if (ce[0]["q"] or "").split("::")[-1] == "drain":
+                a = ce[0]["args"][0]
+                if isinstance(a, tuple) and a[0] == "ref" and a[1][0] in ("H", "L", "T"):
+                    m = a[1]
+                    names = m[2] if m[0] in ("H", "T") else m[3]
+                    if names and names[-1] == "map":
+                        return list_of_map(m)
+                return None
+            it = ce[0]["args"][0]      # an adapter over the drain (map, enumerate, ...)
+        return None
 
     def snapshot(self, i, ev, kind):
         self.snapshots.append((i, ev, kind, {n: s.copy() for n, s in self.nodes.items()}))
